@@ -600,7 +600,7 @@ def _unknown_helper(fx, g):
         return False
     if not g.file.startswith(REPO_PREFIX_()):
         return False
-    if g.norm.split('::')[-1] in inline.anchor_names():
+    if inline.is_anchor(g):
         return False
     if g.cls:
         return g.d.get('access') in ('private', 'protected')
@@ -1013,14 +1013,45 @@ def lin_neg(a):
     return ({s: -c for s, c in a[0].items()}, -a[1])
 
 
+def _modified_locals(fn):
+    """dids of locals that change after their definition by something other than a plain assignment: compound
+    assignment, ++/--, a mutating method call on them, or having their address taken."""
+    mod = getattr(fn, '_modlocals', None)
+    if mod is not None:
+        return mod
+    mod = set()
+
+    def root_did(x):
+        x = access_root(strip_casts(x)) if is_node(x) else None
+        x = strip_casts(x) if is_node(x) else None
+        return x.get('did') if is_node(x) and x['k'] == 'ref' and x.get('dk') in ('local', 'param') else None
+    for n in fn.all_nodes():
+        k = n['k']
+        if k == 'bin' and n['op'].endswith('=') and n['op'] not in ('=', '==', '!=', '<=', '>='):
+            mod.add(root_did(n['lhs']))
+        elif k == 'un' and n['op'] in ('++', '--', 'pre++', 'post++', 'pre--', 'post--', '++pre', '++post', '--pre', '--post', '&'):
+            mod.add(root_did(n['e']))
+        elif k == 'call' and n.get('opc') in ('+=', '-=', '*=', '/=', '++', '--', '|=', '&=', '<<=', '>>=') and n.get('args'):
+            mod.add(root_did(n['args'][0]))
+        elif k == 'call' and 'opc' not in n and is_node(n.get('obj')) and (n.get('callee') or '').split('::')[-1] not in Access.READ_METHODS and not (n.get('csig') or '').rstrip().endswith('const'):
+            mod.add(root_did(n['obj']))
+    mod.discard(None)
+    try:
+        fn._modlocals = mod
+    except Exception:
+        pass
+    return mod
+
+
 def const_local_subst(fn):
-    """{did: init expr} for locals with exactly one definition (their
-    initialiser) - safe to inline when comparing expressions."""
+    """{did: init expr} for locals with exactly one definition (their initialiser) that are never modified afterwards
+    (no compound assignment, ++/--, mutating method, address-of) - safe to inline when comparing expressions."""
     out = {}
+    mod = _modified_locals(fn)
     for n in fn.all_nodes():
         if n['k'] == 'decl':
             for v in n['vars']:
-                if v.get('did') is not None and v.get('init') is not None and len(local_defs(fn, v['did'])) == 1:
+                if v.get('did') is not None and v.get('init') is not None and v['did'] not in mod and len(local_defs(fn, v['did'])) == 1:
                     out[v['did']] = v['init']
     return out
 
